@@ -150,6 +150,32 @@ def run(ctx):
             lo, hi = L.straddle(n)      # explicit tolerances just below / not below Auto's switch for this size
             dqs += [(0, lo), (rnd.choice([1, -1]), lo), (0, hi), (0, AX)]
             tcases.append(dict(tree=t, n=n, dqs=dqs, tqs=[EX, AU, AX, lo, hi], allk=[], cls="small"))
+    # ---- T1b: ANNOTATED operators reaching the generic rule: Hermitian by construction (mostly complex: complex off-diagonals),
+    #      SelfAdjoint / PSD declared on the root or inferred by cola (W^H W), Unitary declared on permutation products;
+    #      every offset, Exact / Auto / trace.  The model ignores annotations: they must not change any value.
+    for n in range(1, 7):
+        for _ in range(ctx.budget(6, 40)):
+            dt = rnd.choice(T.CPLX + T.CPLX + T.REAL)
+            g = L.SqGen(rnd, dt)
+            if rnd.random() < 0.12:
+                p1, p2 = list(range(n)), list(range(n))
+                rnd.shuffle(p1)
+                rnd.shuffle(p2)
+                t, ann = dict(k="Prod", ms=[dict(k="Perm", dt=dt, p=p1), dict(k="Perm", dt=dt, p=p2)]), "Unitary"
+            else:
+                t, ann = L.herm_generic(g, n)
+            if T.absbound(t) * 5 * n > 2 ** 20:
+                continue
+            dqs = [(k, a) for k in offsets_small(n) for a in (EX, AU)]
+            tcases.append(dict(tree=t, n=n, dqs=dqs, tqs=[EX, AU], allk=[], cls="small", ann=ann))
+    for n in (rnd.choice([101, 150]), rnd.choice([199, 230])) if ctx.tier != "thorough" else (99, 101, 150, 199, 200, 230):
+        dt = rnd.choice(T.CPLX)
+        g = L.SqGen(rnd, dt, vmax=2)
+        off = [g.val() for _ in range(n - 1)]
+        t = dict(k="Tridiag", dt=dt, al=[[x[0], -x[1]] for x in off], be=[[g.val()[0], 0] for _ in range(n)], ga=off)
+        ks = [k for k in offsets_sample(rnd, n, 2) if abs(k) <= 3 or rnd.random() < 0.25][:12]
+        tcases.append(dict(tree=t, n=n, dqs=[(k, EX) for k in ks] + [(1, AU), (-1, AU)], tqs=[EX], allk=list(range(-n + 1, n)),
+                           cls="big_generic", ann="SelfAdjoint"))
     # ---- T2: large compact trees, full model: structural kinds / cheap generic products
     for n in L.BIG:
         for j in range(ctx.budget(2, 10)):
@@ -219,9 +245,9 @@ def run(ctx):
         D = T.dense(t)
         dqs = c.get("dqs") or [(k, EX) for k in c["vq"]]
         tqs = c.get("tqs", [])
-        c["dobs"], c["tobs"] = L.run_tree(t, dqs, tqs)
+        c["dobs"], c["tobs"] = L.run_tree(t, dqs, tqs, c.get("ann"))
         # every offset: implementation against the oracle (and the outcome class for the dense cases)
-        allobs = L.run_tree(t, [(k, EX) for k in c["allk"]], [])[0] if c["allk"] else []
+        allobs = L.run_tree(t, [(k, EX) for k in c["allk"]], [], c.get("ann"))[0] if c["allk"] else []
         c["allobs"] = allobs
         for what, qs, obs in (("diag", dqs, c["dobs"]), ("trace", [(0, a) for a in tqs], c["tobs"]), ("diag", [(k, EX) for k in c["allk"]], allobs)):
             for (k, a), o in zip(qs, obs):
@@ -236,7 +262,7 @@ def run(ctx):
                     if fl:
                         attributed[fl] = attributed.get(fl, 0) + 1
                     else:
-                        mism.append(dict(oracle_fail=True, case=dict(tree=t, k=k, alg=a, what=what), got=o, oracle_says=why))
+                        mism.append(dict(oracle_fail=True, case=dict(tree=t, declared=c.get("ann"), k=k, alg=a, what=what), got=o, oracle_says=why))
     # T4: outcome classes (the exact value is compared here with the oracle's diagonal: by C08_generic_diag_cases that is the model's value)
     aterms = []
     for c in acases:
@@ -332,6 +358,7 @@ def run(ctx):
              "distinct = distinct (tree, offset) with tree depth >= 2 or n > 6",
         samples=[dict(tree=c["tree"], offsets=[q[0] for q in c["dqs"]][:8]) for c in tcases[:2]],
         mismatches=mism, findings=fnd,
-        extra=dict(tree_cases=len(tcases), dense_cases=len(gcases), auto_switch_cases=[(c["n"], c["dt"], c["tree"]["k"]) for c in acases], queries_compared_in_coq=nq_coq, kind_histogram=hist,
+        extra=dict(annotated_cases=sum(1 for c in tcases if c.get("ann")), inferred_psd_cases=sum(1 for c in tcases if "ann" in c and c["ann"] is None),
+                   tree_cases=len(tcases), dense_cases=len(gcases), auto_switch_cases=[(c["n"], c["dt"], c["tree"]["k"]) for c in acases], queries_compared_in_coq=nq_coq, kind_histogram=hist,
                    sizes=sorted({c["n"] for c in allc}), outcome_classes=outcome, attributed_to_present_flags=attributed, model_flags=df,
                    complex_cases=sum(1 for c in allc if any(d in T.CPLX for d in O.leaf_dts(c["tree"])))))
